@@ -43,6 +43,7 @@ def apply(a, line):
         for k in range(1, len(v) + 1):
             for f in itertools.combinations(sorted(set(v)), k): a.c.add(frozenset(f))
         return 'adds'
+    if o == 'copy': return 'copy'
     if o == 'rmstar': s = frozenset(v); a.c = {t_ for t_ in a.c if not s <= t_}; return 'rmstar'
     if o == 'link': return 'link %d' % a.link(*v)
     if o == 'contract':
@@ -123,6 +124,7 @@ def gen_case(rng, maxlen=24):
         if frozenset(tri_) in a.c and rng.random() < 0.8: l = 'rmstar ' + ' '.join(map(str, sorted(tri_))); lines.append(l); apply(a, l); lines.append('obs')
     for _ in range(rng.randrange(3, maxlen)):
         r = rng.random(); vs = sorted({v for s in a.c if len(s) == 1 for v in s})
+        if rng.random() < 0.1: lines += ['copy %d' % rng.randrange(2), 'obs']     # the complex goes on as a copy of itself (copy constructor / assignment)
         blockers = [b for b in minimal_nonfaces(a, vs) if len(b) >= 3] if r < 0.12 else []
         if blockers:
             # add_simplex of a simplex that properly contains a blocker (the blocker goes away, its other cofaces have to be blocked instead)
